@@ -7,6 +7,8 @@ import (
 	"math"
 	"os"
 	"path/filepath"
+	"regexp"
+	"strconv"
 	"strings"
 
 	"github.com/ctessum/geom"
@@ -20,7 +22,7 @@ import (
 func init() {
 	core.Register(&core.Prop{
 		ID: "C20",
-		Rule: "spelling phase: case = one generated system (Mercator_1SP, Lambert_Conformal_Conic_2SP, Albers_Conic_Equal_Area, Equidistant_Conic, Transverse_Mercator or plain geographic; random parameters; spheroid by (a, 1/f); TOWGS84 with 3/7 terms or none; linear unit metre / foot / US survey foot) printed by the harness as a PROJ.4 string and as WKT (ESRI parameter names, and for the conics also the OGC/GDAL names latitude_of_center / longitude_of_center), transformed at 4 usable positions from a fresh WGS84 source (definitions with TOWGS84) or from the same-spheroid geographic system spelled both ways (definitions without): forward results must agree within 1e-6 m, inverse within 1e-11 deg; " +
+		Rule: "spelling phase (each system is also paired with a near twin - one numeric parameter negated or nudged by 1e-6 - for which Equal and NewTransform==nil must agree and a nil transformer is accepted only if both definitions project a position to the same coordinates): case = one generated system (Mercator_1SP, Lambert_Conformal_Conic_2SP, Albers_Conic_Equal_Area, Equidistant_Conic, Transverse_Mercator or plain geographic; random parameters; spheroid by (a, 1/f); TOWGS84 with 3/7 terms or none; linear unit metre / foot / US survey foot) printed by the harness as a PROJ.4 string and as WKT (ESRI parameter names, and for the conics also the OGC/GDAL names latitude_of_center / longitude_of_center), transformed at 4 usable positions from a fresh WGS84 source (definitions with TOWGS84) or from the same-spheroid geographic system spelled both ways (definitions without): forward results must agree within 1e-6 m, inverse within 1e-11 deg; " +
 			"registry phase: registered names vs their published definition strings (Equal, identical outputs), same text parsed twice, and NewTransform == nil exactly when Equal(…, 3) for pairs that are identical or differ by 1 ulp / 1e-9 / name / units / datum-parameter count; a .prj written next to a generated shapefile must come back from (*shp.Decoder).SR() equal to proj.Parse of the text; " +
 			"an evaluation is one position or one pair judged; non-trivial = definition with a non-metre unit, a TOWGS84 clause or the OGC spelling; distinct by definition hash",
 		Assumptions: []string{"a WKT DATUM without TOWGS84 states a WGS84-equivalent datum while +a +rf without +datum states none (two different statements): such definitions are compared from the geographic system on the same spheroid, itself spelled both ways", "false origin: PROJ.4 metres = WKT value x linear unit"},
@@ -41,7 +43,7 @@ func init() {
 		Run: run,
 		Floors: func(t string) map[string]int64 {
 			return map[string]int64{"spelling.esri": 5000, "spelling.ogc": 1000, "section_order.unit_before_parameters": 1000, "unit.foot": 1000, "unit.us_foot": 1000, "towgs84.3": 1000, "towgs84.7": 1000, "towgs84.none": 1000,
-				"proj.merc": 300, "proj.lcc": 300, "proj.aea": 300, "proj.eqdc": 300, "proj.tmerc": 300, "proj.longlat": 300, "registry.names": 100, "registry.equal_pairs": 500, "registry.unequal_pairs": 300, "registry.prj_files": 50}
+				"proj.merc": 300, "proj.lcc": 300, "proj.aea": 300, "proj.eqdc": 300, "proj.tmerc": 300, "proj.longlat": 300, "registry.names": 100, "registry.equal_pairs": 500, "registry.unequal_pairs": 300, "registry.prj_files": 50, "twin.negated": 2000, "twin.nudged": 1000}
 		},
 	})
 }
@@ -305,6 +307,7 @@ func runSpelling(c *core.Ctx) {
 	} else {
 		pr = pairing{s.geo4, s.geoWKT}
 	}
+	twinCheck(c, s)
 	for k := 0; k < 4; k++ {
 		lon := s.lon0 + r.Range(-s.dlon, s.dlon)
 		lat := r.Range(s.latMin, s.latMax)
@@ -572,5 +575,82 @@ func runRegistry(c *core.Ctx, idx int) {
 		if rec != nil {
 			c.Violate("prj-panic", fmt.Sprintf("reading the .prj panicked: %v", core.Trunc(fmt.Sprint(rec), 150)), detail)
 		}
+	}
+}
+
+var numParam = regexp.MustCompile(`\+(lon_0|lat_0|lat_1|lat_2|x_0|y_0|k_0|lat_ts)=(-?[0-9][0-9.eE+-]*)`)
+
+// twinCheck derives a near twin of the definition - one numeric parameter negated, or nudged by
+// a relative 1e-6 - and judges the "nil transformer exactly for Equal references" clause
+// semantically: Equal and (NewTransform == nil) must agree, and a nil (identity) transformer is
+// only right if both definitions really project a position to the same coordinates.
+func twinCheck(c *core.Ctx, s *sys) {
+	r := c.R
+	ms := numParam.FindAllStringSubmatchIndex(s.proj4, -1)
+	if len(ms) == 0 {
+		return
+	}
+	m := ms[r.Intn(len(ms))]
+	name, val := s.proj4[m[2]:m[3]], s.proj4[m[4]:m[5]]
+	v, err := strconv.ParseFloat(val, 64)
+	if err != nil || v == 0 {
+		return
+	}
+	how := "negated"
+	nv := -v
+	if r.Chance(0.3) || name == "k_0" {
+		how, nv = "nudged", v*(1+1e-6)
+	}
+	twin := s.proj4[:m[4]] + crsgen.F(nv) + s.proj4[m[5]:]
+	detail := map[string]interface{}{"definition": s.proj4, "twin": twin, "parameter": name, "change": how}
+	var A, B *proj.SR
+	var t proj.Transformer
+	var eq bool
+	failed := ""
+	if c.Guard("twin", detail, func() {
+		var err error
+		if A, err = proj.Parse(s.proj4); err != nil {
+			failed = err.Error()
+			return
+		}
+		if B, err = proj.Parse(twin); err != nil {
+			failed = err.Error()
+			return
+		}
+		eq = A.Equal(B, 3)
+		if t, err = A.NewTransform(B); err != nil {
+			failed = err.Error()
+		}
+	}) || failed != "" {
+		c.Count("twin.unusable")
+		return
+	}
+	c.Eval()
+	c.Count("twin." + how)
+	if eq != (t == nil) {
+		c.Violate("twin:equal-vs-nil-transformer", fmt.Sprintf("Equal = %v but NewTransform returned nil = %v (parameter %s %s)", eq, t == nil, name, how), detail)
+		return
+	}
+	if t != nil {
+		return
+	}
+	// identity claimed: both definitions must map a position to the same coordinates
+	lon, lat := s.lon0+r.Range(-s.dlon, s.dlon)*0.5, r.Range(s.latMin, s.latMax)
+	src := wgs84Geo
+	if s.towgs == 0 {
+		src = s.geo4
+	}
+	a, b := once(src, s.proj4, lon, lat), once(src, twin, lon, lat)
+	if a.err != "" || b.err != "" {
+		c.Count("twin.position_unusable")
+		return
+	}
+	d := math.Max(math.Abs(a.x-b.x), math.Abs(a.y-b.y))
+	if s.name != "longlat" {
+		d *= s.toMeter
+	}
+	detail["position"], detail["via_definition"], detail["via_twin"] = []float64{lon, lat}, []float64{a.x, a.y}, []float64{b.x, b.y}
+	if d > 1e-6 {
+		c.Violate("twin:identity-between-different-systems", fmt.Sprintf("NewTransform returns the nil (identity) transformer between two definitions that differ in %s (%s) and project (%v, %v) %.3g apart", name, how, lon, lat, d), detail)
 	}
 }
